@@ -77,5 +77,6 @@ theorem inv_sendPrepReq (c : Cfg) (s : State) (i p : Nat) (inv : Inv c s)
     · subst h1; exact ⟨fun _ => hprop, fun h => absurd hpb h⟩
     · exact inv.checked i b1 (by rw [hnd]; exact h1)
   · intro b1 h1; have := inv.chainHeight i b1 (by rw [hnd]; exact h1); rw [hnd] at this; exact this
+  · have := inv.chainShape i; rw [hnd] at this; exact this
 
 end NeoModel.Dbft
